@@ -10,7 +10,7 @@
    Go maps are association lists; every Go `range` over a map whose order can
    matter takes an iteration oracle (any function returning a permutation of
    its argument).  Standard-library behaviour the property does not talk
-   about (fmt %v of scalars, url.JoinPath, url.Values.Encode, json.Marshal,
+   about (fmt %v of scalars, url.JoinPath, json.Marshal,
    the query already present in the base URL) enters as Section variables.
    The result-arity checks of cook.go:135-171 and the response handling of
    the template (lines 88-131, property C10) are not part of this model.
@@ -305,8 +305,7 @@ Record request := {
   rq_verb : string;
   rq_path : string;                                 (* path_ after the substitutions *)
   rq_url : string;                                  (* url.JoinPath(base, path_) *)
-  rq_query : option (list (string * string));       (* None: RawQuery left as it is; Some q: RawQuery = q.Encode() *)
-  rq_rawquery : option string;
+  rq_query : option (list (string * string));       (* None: RawQuery left as it is; Some q: RawQuery = q.Encode() (url.Values.Encode) *)
   rq_headers : list (string * string);              (* the req_.Header.Add calls, in order *)
   rq_body : option string;                          (* None = nil body *)
   rq_ctx : option (nat * bool)                      (* None = http.NewRequest (background) *)
@@ -330,7 +329,6 @@ Section Std.
 Variable fmt_v : sval -> string.                          (* fmt.Sprintf("%v", scalar) *)
 Variable join_path : string -> string -> option string.   (* url.JoinPath(base, elem); None = error *)
 Variable json_marshal : aval -> option string.            (* json.Marshal; None = error *)
-Variable encode : list (string * string) -> string.       (* url.Values.Encode *)
 Variable url_query : string -> list (string * string).    (* req_.URL.Query() of the joined URL *)
 
 Inductive ev := EvVal (s : string) | EvNil | EvPanic | EvBad.
@@ -465,7 +463,6 @@ Definition exec (sigma_d : list (string * sval) -> list (string * sval))
                   | inr q =>
                       OSent {| rq_verb := d_verb d; rq_path := path_; rq_url := url_;
                                rq_query := q;
-                               rq_rawquery := option_map encode q;
                                rq_headers := sort_kv hdrs;
                                rq_body := body;
                                rq_ctx := ctx |}
